@@ -78,7 +78,15 @@ fn enc_value(v: &Value, out: &mut Vec<u8>) -> Result<()> {
             out.push(if *b { 0xf5 } else { 0xf4 });
         }
         Value::Null => out.push(0xf6),
-        Value::Integer(n) => enc_int(i128::from(*n), out),
+        Value::Integer(n) => {
+            let n = i128::from(*n);
+            // The decoder (and every DTO above it) limits negatives to i64;
+            // refuse what could not be read back instead of emitting it.
+            if n < i128::from(i64::MIN) {
+                return Err(CanonError::Encode("integer out of range".into()));
+            }
+            enc_int(n, out);
+        }
         Value::Float(f) => enc_float(*f, out),
         Value::Text(s) => enc_text(s, out)?,
         Value::Bytes(b) => enc_bytes(b, out)?,
